@@ -85,13 +85,22 @@ Init == /\ phase = "chosen" /\ resN = "none" /\ resL = "none"
         /\ \/ /\ kind = "range" /\ lay \in RangeLayouts
               /\ op \in {[start |-> s, size |-> z] : s \in 0 .. (2 * 9 + 16 + MaxL), z \in 1 .. MaxL}
               /\ op.start >= PayloadStart(lay) /\ op.start + op.size <= PayloadStart(lay) + lay.L      \* valid ranges only
+           \* "big": an mdat whose payload has 2^32 + x bytes, decoded lazily from a sparse file. 4.2: the 32-bit size field holds
+           \* header + payload up to 2^32 - 1, i.e. x <= -9; beyond that size = 1 and a 64-bit largesize follows (header 16).
+           \* (TLC integers are 32-bit: the payload length is kept as the offset x from 2^32.)
+           \/ /\ kind = "big" /\ lay \in [x : {-10, -9, -8, 5}, post : {0, 9}, order : {"moov-mdat"}]
+              /\ op \in [tail : {1, 4}]
            \/ /\ kind = "copy" /\ lay \in CopyLayouts
               /\ op \in {[a |-> a, b |-> b, W |-> w] : a \in 1 .. MaxN, b \in 1 .. MaxN, w \in 0 .. ((MaxN * (MaxN + 3)) \div 2 + 1)}
               /\ op.a <= op.b /\ op.b <= lay.N /\ op.W <= PayloadLen(lay) + 1
 
+BigHdr(x) == IF x <= -9 THEN 8 ELSE 16         \* Prop: header form from the payload length alone
+\* Impl (MdatBox.Size): LargeSize is switched on when the payload exceeds maxNormalPayloadSize = 2^32 - 1 - 8
+ImplBigHdr(x) == IF x > -9 THEN 16 ELSE 8
 Run == /\ phase = "chosen" /\ phase' = "done"
        /\ IF kind = "range"
           THEN resN' = ImplReadNormal(lay, op.start, op.size) /\ resL' = ImplReadLazy(lay, op.start, op.size)
+          ELSE IF kind = "big" THEN resN' = BigHdr(lay.x) /\ resL' = ImplBigHdr(lay.x)
           ELSE resN' = ImplCopy(lay, op.a, op.b, op.W, FALSE) /\ resL' = ImplCopy(lay, op.a, op.b, op.W, TRUE)
        /\ UNCHANGED <<kind, lay, op>>
 
@@ -102,8 +111,10 @@ Spec == Init /\ [][Next]_vars
 L2 == (phase = "done" /\ kind = "range") => resN = [from |-> op.start, to |-> op.start + op.size - 1] /\ resL = resN
 L3 == (phase = "done" /\ kind = "copy") => resN = WantCopy(lay, op.a, op.b) /\ resL = resN
 
+LBig == (phase = "done" /\ kind = "big") => resL = resN
 Export == (DoExport /\ phase = "done") =>
-    PrintT(ToJson(IF kind = "range"
+    PrintT(ToJson(IF kind = "big" THEN [kind |-> kind, lay |-> lay, op |-> op, want |-> resN]
+                  ELSE IF kind = "range"
                   THEN [kind |-> kind, lay |-> lay, op |-> op, want |-> resN, header |-> HdrBytes(lay.hdr, lay.L)]
                   ELSE [kind |-> kind, lay |-> lay, op |-> op, want |-> resN, sizes |-> SizesOf(lay), offs |-> ChunkOffs(lay),
                         stsc |-> StscFrom(lay.spc, Rep(1, Len(lay.spc)), 1, TRUE), plen |-> PayloadLen(lay)]))
